@@ -14,6 +14,8 @@ inductive EnvStep where
   | unlinkDest                             -- `rm -f dest`
   | putDest (mode : Nat) (data : Bytes)    -- another writer replaces the destination by its own new file
   | setUmask (um : Nat)                    -- `os.umask(um)` in the saving process
+  | putPart (mode : Nat) (data : Bytes)    -- a part file appears under the part name (left behind by another, crashed saver)
+  | unlinkPart                             -- somebody removes the part file
 deriving DecidableEq, Repr
 
 def EnvStep.apply (fs : FS) : EnvStep → FS
@@ -26,5 +28,10 @@ def EnvStep.apply (fs : FS) : EnvStep → FS
   | .putDest md data =>
     { (fs.setDir { fs.dir with dest := some fs.inodes.length }) with inodes := fs.inodes ++ [⟨data, [], md⟩] }
   | .setUmask um => { fs with umask := um }
+  | .putPart md data =>
+    { (fs.setDir { fs.dir with part := some fs.inodes.length }) with inodes := fs.inodes ++ [⟨data, [], md⟩] }
+  | .unlinkPart => match fs.dir.part with
+    | some _ => fs.setDir { fs.dir with part := none }
+    | none => fs
 
 end C05
